@@ -8,7 +8,7 @@ from sa.emit import Elem, Opt, walk_elems
 from sa.flow import show, sig, subterms
 from sa.model import AnalysisError, norm, parent, walk_no_nested
 
-from .common import alts, callers_of, commands, is_call, is_plain_iter, need, prov
+from .common import rename_rewrite_ok, rename_rewrite_sites, alts, callers_of, commands, is_call, is_plain_iter, need, prov
 from .c03 import pipeline_funcs, tfm_func, traversal_loop
 from .xmlcommon import documents
 
@@ -71,22 +71,16 @@ def run(report, p):
     # ------------------------------------------------------------------ R17.2 (sibling rewrite; shared with C03 R3.1)
     r2 = report.rule("R17.2", "one rewrite, three commands: create, verify and diff map the expected set through the same {p -> renamed[p] if renamed else p} comprehension over history.renamed_path_with_previous_path()", 3)
     tfm = tfm_func(p)
-    dumps = {}
+    n_ok = 0
     for f, call in pipeline_funcs(p, tfm):
-        comps = [n for n in walk_no_nested(f.node) if isinstance(n, ast.SetComp) and any("renamed" in norm(x) for x in ast.walk(n))]
-        r2.instance(f, comps[0] if comps else f.node, f.name)
-        if len(comps) != 1:
-            r2.check(False, f, f.node, "no rename rewrite of the expected set", construct="rename rewrite missing")
-            continue
-        c = comps[0]
-        dumps[f.qual] = ast.dump(c)
-        src = [n for n in walk_no_nested(f.node) if isinstance(n, ast.Assign) and isinstance(n.value, ast.Call) and norm(n.value.func).endswith(".renamed_path_with_previous_path")]
-        ok = len(src) == 1 and norm(src[0].targets[0]) in norm(c)
-        gen = c.generators[0]
-        elt = c.elt
-        okshape = isinstance(elt, ast.IfExp) and norm(elt.body) == norm(gen.target) and norm(elt.orelse) == f"{norm(src[0].targets[0])}[{norm(gen.target)}]" if src else False
-        r2.check(ok and okshape and not gen.ifs, f, c, "the expected set is not rewritten as {p if not renamed else new path of p}", construct="rename rewrite shape")
-    r2.check(len(set(dumps.values())) == 1 and len(dumps) >= 3, None, None, "the rename rewrite differs between create / verify / diff", construct="sibling rewrite")
+        sites = rename_rewrite_sites(p, pr, f)
+        r2.instance(f, sites[0][1] if sites else f.node, f.name)
+        if len(sites) != 1:
+            raise AnalysisError(f"{f.qual}: expected exactly one rename rewrite of the expected set, found {len(sites)}")
+        okrw, why = rename_rewrite_ok(p, pr, sites[0][0], sites[0][1])
+        n_ok += 1
+        r2.check(okrw, sites[0][0], sites[0][1], "the expected set is not rewritten as {new path of p if p was renamed, else p}: " + why, construct="rename rewrite shape")
+    r2.check(n_ok >= 3, None, None, "not every one of create / verify / diff rewrites its expected set through the rename map", construct="sibling rewrite")
 
     # ------------------------------------------------------------------ R17.3
     r3 = report.rule("R17.3", "verify (and diff) follow the previous path: for the record whose path equals the traversed file's path the lookup of the original entry uses `previous_path or path`", 2)
